@@ -76,6 +76,7 @@ pub enum PropH {
     C09,
     C15,
     C19,
+    C12,
 }
 
 pub struct SimH {
@@ -173,6 +174,14 @@ pub struct ScenarioH {
     /// through `ExecutionBuilder::add_live`
     #[serde(default)]
     pub generic_client: bool,
+    /// every second instrument of an exchange is a perpetual with a contract size other than 1
+    #[serde(default)]
+    pub derivs: bool,
+    /// the first account snapshot after every dropped connection reports a balance for an asset
+    /// nobody configured: that re-initialisation fails (the manager cannot index it) and has to be
+    /// retried after the backoff
+    #[serde(default)]
+    pub poisoned_resnapshot: bool,
 }
 
 fn cid(ord: usize) -> String {
@@ -207,6 +216,8 @@ impl WorldH {
         let instruments = topo_instruments_b(&TopoB {
             inst_per_ex: sc.inst_per_ex.clone(),
             links: vec![],
+            derivs: sc.derivs,
+            with_spec: false,
         });
         let n_ex = instruments.exchanges().len();
         let inst_ex = instruments.instruments().iter().map(|i| i.value.exchange.key.0).collect();
@@ -221,9 +232,8 @@ impl WorldH {
     fn filter_ok(&self, f: &FilterB) -> bool {
         match f {
             FilterB::None => true,
-            FilterB::Exchanges(v) => !v.is_empty(),
-            FilterB::Instruments(v) => !v.is_empty(),
-            FilterB::UnderlyingsOf(v) => v.iter().any(|i| *i < self.n_inst()),
+            FilterB::Exchanges(_) | FilterB::Instruments(_) => true,
+            FilterB::UnderlyingsOf(v) => v.is_empty() || v.iter().any(|i| *i < self.n_inst()),
         }
     }
     fn filter(&self, f: &FilterB) -> InstrumentFilter {
@@ -280,6 +290,9 @@ struct RunOut {
     /// filters of the cancel-orders / close-positions commands, in the order they were pushed
     cancel_filters: Vec<FilterB>,
     close_filters: Vec<FilterB>,
+    /// fills pushed on an account stream: (exchange, instant, trade id); drops: (exchange, instant)
+    trades_pushed: Vec<(usize, u64, String)>,
+    drop_instants: Vec<(usize, u64)>,
     end_ms: u64,
     /// the engine task had already ended (fatal error) when the run went quiet
     engine_died: bool,
@@ -338,8 +351,13 @@ fn run_system(sc: &ScenarioH, w: &WorldH) -> Result<RunOut, String> {
                 UnindexedAccountSnapshot { exchange: ex.value, balances: vec![], instruments: listed },
             );
             let mut q = VecDeque::from([tx]);
-            for _ in 0..n_drops[e] {
+            for d in 0..n_drops[e] {
                 q.push_back(client.add_connection());
+                if sc.poisoned_resnapshot {
+                    // call 1 is the initial snapshot; each drop costs two calls, the first poisoned
+                    client.0.poisoned_snapshot_calls.lock().unwrap().push(2 + 2 * d as u64);
+                    q.push_back(client.add_connection());
+                }
             }
             let t = Duration::from_millis(timeout);
             if sc.generic_client {
@@ -456,6 +474,8 @@ fn run_system(sc: &ScenarioH, w: &WorldH) -> Result<RunOut, String> {
         // per instrument: (fills pushed so far, their common side if they all had the same one)
         let mut trade_sides: Vec<(u32, Option<bool>)> = vec![(0, None); w.n_inst()];
         let mut close_filters: Vec<FilterB> = Vec::new();
+        let mut trades_pushed: Vec<(usize, u64, String)> = Vec::new();
+        let mut drop_instants: Vec<(usize, u64)> = Vec::new();
         let linked = |e: usize| sc.untraded != Some(e);
         for (k, st) in sc.steps.iter().enumerate() {
             tokio::time::sleep_until(start + Duration::from_millis(st.at_ms)).await;
@@ -579,14 +599,20 @@ fn run_system(sc: &ScenarioH, w: &WorldH) -> Result<RunOut, String> {
                     };
                     if conns[e].front().is_some_and(|tx| tx.send(ev).is_ok()) {
                         account_items_pushed += 1;
+                        trades_pushed.push((e, now as u64, format!("t{k}")));
                     }
                 }
                 KindH::AcctDrop { ex } => {
-                    if *ex >= w.n_ex || conns[*ex].len() < 2 || !linked(*ex) {
+                    if *ex >= w.n_ex || conns[*ex].len() < (if sc.poisoned_resnapshot { 3 } else { 2 }) || !linked(*ex) {
                         continue;
                     }
                     conns[*ex].pop_front();
+                    if sc.poisoned_resnapshot {
+                        // (the connection taken by the failed re-initialisation is lost as well)
+                        conns[*ex].pop_front();
+                    }
                     account_drops[*ex] += 1;
+                    drop_instants.push((*ex, now as u64));
                 }
                 KindH::CmdOpen { ords } => {
                     let v: Vec<_> = ords.iter().filter(|o| w.ord_ok(sc, **o)).map(|o| w.open_req(sc, *o)).collect();
@@ -696,6 +722,8 @@ fn run_system(sc: &ScenarioH, w: &WorldH) -> Result<RunOut, String> {
             commands_pushed,
             cancel_filters,
             close_filters,
+            trades_pushed,
+            drop_instants,
             end_ms,
             engine_died,
         })
@@ -812,6 +840,7 @@ impl Sim for SimH {
             PropH::C09 => "C09",
             PropH::C15 => "C15",
             PropH::C19 => "C19",
+            PropH::C12 => "C12",
         }
     }
     fn sub_batches(&self) -> Vec<&'static str> {
@@ -904,7 +933,7 @@ impl Sim for SimH {
                 let f = match rng.below(5) {
                     0 | 1 => FilterB::None,
                     2 => FilterB::Exchanges(vec![rng.usize(n_ex)]),
-                    3 => FilterB::Instruments((0..1 + rng.usize(2)).map(|_| rng.usize(n_inst)).collect()),
+                    3 => FilterB::Instruments((0..rng.usize(3)).map(|_| rng.usize(n_inst)).collect()),
                     _ => FilterB::UnderlyingsOf(vec![rng.usize(n_inst)]),
                 };
                 if f == FilterB::None { KindH::CmdCancelAll } else { KindH::CmdCancelFiltered { filter: f } }
@@ -974,6 +1003,8 @@ impl Sim for SimH {
             untraded: if faulty && n_ex >= 2 && rng.chance(1, 4) { Some(rng.usize(n_ex)) } else { None },
             snapshot_lists_instruments: rng.chance(1, 2),
             generic_client: rng.chance(1, 3),
+            derivs: self.prop == PropH::C15 && rng.chance(1, 2),
+            poisoned_resnapshot: faulty && rng.chance(1, 4),
         }
     }
 
@@ -1051,6 +1082,9 @@ impl Sim for SimH {
             }
             if sc.generic_client {
                 stats.probe("execution_wired_for_generic_client");
+            }
+            if sc.poisoned_resnapshot && out.account_drops.iter().any(|d| *d > 0) {
+                stats.fault("account_reinitialisation_fails_once");
             }
             if out.engine_died {
                 stats.probe("engine_stopped_on_fatal_error");
@@ -2009,6 +2043,54 @@ impl Sim for SimH {
                     }
                 }
             }
+            // ================================================================================
+            // C12: the manager's reconnecting account stream, seen from the engine
+            // ================================================================================
+            if self.prop == PropH::C12 && !out.engine_died {
+                let mut acct_notices = vec![0u64; w.n_ex];
+                let mut trade_ids: Vec<String> = Vec::new();
+                for t in &out.ticks {
+                    let EngineAudit::Process(pa) = &t.event else { continue };
+                    match &pa.event {
+                        EngineEvent::Account(AccountStreamEvent::Reconnecting(x)) => {
+                            if let Some(e) = EXS.iter().position(|y| y == x).filter(|e| *e < w.n_ex) {
+                                acct_notices[e] += 1;
+                            }
+                        }
+                        EngineEvent::Account(AccountStreamEvent::Item(ev)) => {
+                            if let AccountEventKind::Trade(tr) = &ev.kind {
+                                trade_ids.push(tr.id.0.to_string());
+                            }
+                        }
+                        _ => {}
+                    }
+                }
+                // exactly one notice per dropped connection (failed re-initialisations add none)
+                if acct_notices != out.account_drops {
+                    fail!('chk, "R2_one_notice_per_drop", 0, "account connections dropped per exchange {:?}; reconnecting notices that reached the engine {:?}", out.account_drops, acct_notices);
+                }
+                if out.account_drops.iter().any(|d| *d > 0) {
+                    stats.probe("account_stream_reconnected_by_real_manager");
+                }
+                // the stream never ends by itself: whatever the exchange sends on a connection that is
+                // up (no drop of that exchange within the next second, none at all before, or the last
+                // one long enough ago for the retry after a failed re-initialisation) reaches the engine
+                // exactly once
+                for (e, at, id) in &out.trades_pushed {
+                    let dropped_soon = out.drop_instants.iter().any(|(x, d)| x == e && *d >= *at && *d <= at + 1_000);
+                    let just_reconnected = out.drop_instants.iter().any(|(x, d)| x == e && *d <= *at && at - d < 1_000);
+                    if dropped_soon || just_reconnected {
+                        continue;
+                    }
+                    let n = trade_ids.iter().filter(|x| *x == id).count();
+                    if n != 1 {
+                        fail!('chk, "R1_items_once_in_order", 0, "fill {id} pushed on exchange {e}'s account stream at {at} ms (connection up, drops of that exchange at {:?}) reached the engine {n} times", out.drop_instants.iter().filter(|(x, _)| x == e).map(|(_, d)| *d).collect::<Vec<_>>());
+                    }
+                    if out.drop_instants.iter().any(|(x, d)| x == e && d < at) {
+                        stats.probe("item_delivered_after_reconnection");
+                    }
+                }
+            }
             let _ = out.algo_calls;
             break 'chk;
         }
@@ -2123,6 +2205,7 @@ impl Sim for SimH {
             "account_report_lagging",
             "exchange_without_execution_link",
             "market_item_lagging",
+            "account_reinitialisation_fails_once",
         ]
     }
     fn probe_kinds(&self) -> Vec<&'static str> {
@@ -2135,6 +2218,7 @@ impl Sim for SimH {
             PropH::C14 => vec!["market_link_healed", "account_link_healed", "account_stream_reconnected_by_real_manager"],
             PropH::C09 => vec!["late_balance_ignored", "late_public_trade_ignored", "late_order_report_ignored"],
             PropH::C15 => vec!["priced_market_event_with_open_position", "fill_with_position_after", "late_market_event_ignored_by_data_guard"],
+            PropH::C12 => vec!["account_stream_reconnected_by_real_manager", "item_delivered_after_reconnection"],
             PropH::C19 => vec!["cancel_command_with_orders_in_scope", "cancel_repeated_while_cancel_in_flight", "cancel_of_order_still_open_in_flight", "close_command_with_position_in_scope", "filter_excludes_tracked_order", "order_state_uncertain_skipped"],
         });
         v
